@@ -54,9 +54,10 @@ var AssembleInputRegex = regexp.MustCompile(`^\s*##!=<\s*(.*)$`)
 var AssembleOutputRegex = regexp.MustCompile(`^\s*##!=>\s*(.*)$`)
 
 // RuleRxRegex matches a full SecRule line with @rx.
-// Everything up to the start of the regular expression is captured in group 1,
-// the end of the line after the regular expression is captured in group 2.
-var RuleRxRegex = regexp.MustCompile(`(.*"!?@rx )(.*)(" \\)`)
+// Everything up to and including the first `"@rx ` (or `"!@rx `) is captured in group 1,
+// the regular expression in group 2, and the last `" \` with whatever follows it on the
+// line (e.g. the CR of a CRLF line) in group 3. The three groups span the whole line.
+var RuleRxRegex = regexp.MustCompile(`^(.*?"!?@rx )(.*)(" \\.*)$`)
 
 // SecRuleRegex matches any SecRule line.
 var SecRuleRegex = regexp.MustCompile(`^\s*SecRule\s`)
